@@ -8,9 +8,10 @@ from rustcut import Source
 
 PROP = 'C16'
 CONTRACT_FNS = {'common_init', 'parse_file', 'advance_by_all_trivia', 'advance', 'skip_trivia', 'raw_advance', 'current', 'nth', 'is_eof', 'open',
-                'advance_by_trailing_trivia', 'advance_by_non_leading_trivia', 'close', 'token_start', 'token_end'}
+                'advance_by_trailing_trivia', 'advance_by_non_leading_trivia', 'close', 'token_start', 'token_end', 'token_len', 'current_span',
+                'report_error', 'report_error_at'}
 INIT_FNS = {'common_init', 'into_file', 'from_string', 'from_shared_string', 'parse'}   # construct / consume the state
-STATE = r'(events|leading|token_idx|tokens|token_starts)'
+STATE = r'(events|leading|token_idx|tokens|token_starts|content)'
 MUTATE = re.compile(r'self\s*\.\s*' + STATE + r'\s*(\.\s*(push|pop|clear|insert|remove|truncate|extend|append|drain|swap|retain|split_off|resize)\b|(\+|-|\*|/)?=(?!=))'
                     r'|&\s*mut\s+self\s*\.\s*' + STATE)
 
@@ -103,10 +104,12 @@ def run(tier):
         dict(theorem='theorem_tokens_reproduce_the_text', statement='partition(cs, starts) ==> concatenation over i of cs[starts[i] .. starts[i+1] or end) == cs'),
         dict(function='Lexer::read_token', contract='requires cursor on a boundary and not at the end; ensures the cursor moved forward by at least one whole character and is on a boundary; every `unwrap`/`expect`/`unreachable!()` inside is proved safe'),
         dict(function='compute_line_column', contract='requires the line table of compute_line_starts (proved in the C20 unit: starts at 0, strictly increasing); ensures (1-based line of the last line start <= offset, 1-based byte column offset - start + 1); no index/overflow panic for offset < u32::MAX'),
+        dict(function='Parser::report_error', contract='requires the token starts handed over by the lexer (strictly increasing, inside the text; established by common_init, never assigned elsewhere: frame scan); '
+             'ensures the span of the reported error lies inside the text (start + len <= |content|); token_len never underflows'),
         dict(function='Parser::parse_file', contract='ensures adv(events) == |tokens| - 1 && leading == 0: every lexed token, trivia included, is advanced exactly once'),
     ]
     not_decided = ['which TokenKind the lexer assigns to a piece of text', 'build_tree replays the events into the green tree, and the red tree (ast.rs) derives offsets from green lengths: neither is under contract; both are EXECUTED by the replay runner on generated texts (tree text == source, lengths add up, node/token spans tile the file, every token text is the source slice at its span)',
-                   'error spans inside the text', 're-parse equality', 'termination of parse_file (progress of parse_element is assumed)']
+                   'error spans that are not made from the current token (report_error_at with a computed span) and the lexer\'s own error spans: executed by the runner only', 're-parse equality', 'termination of parse_file (progress of parse_element is assumed)']
     return vprop.run_verus_property(PROP, tier, units, runner=_runner_spec(), assumptions=assumptions, samples=samples,
                                     not_decided=not_decided, pre_undecided=pre_und,
                                     extra_cov=dict(frame_scan=dict(functions_in_impl_parser=nfun, contract_set=sorted(CONTRACT_FNS))))
